@@ -455,4 +455,84 @@ theorem inv_appRun (ops : List AOp) (a : App) (h : Inv a.s) : Inv (appRun a ops)
   | nil => exact h
   | cons op ops ih => exact ih _ (inv_appStep a op h)
 
+/-! ### dispatch that is not atomic (nested serve during `_unbox`) -/
+
+/-- taking a hand-back off the queue: the rest of the state still satisfies the invariant, and the key is present -/
+theorem inv_pop_back (s : St) (k : Id) (e : Bool) (rest : List MsgP) (h : Inv s) (hq : s.p2o = .back k e :: rest) :
+    Inv { s with p2o := rest } ∧ ∃ n, s.tbl k = some n := by
+  have hcount := h.count
+  have hdels := h.dels
+  have hbacks := h.backs
+  rw [hq] at hcount hdels hbacks
+  refine ⟨⟨?_, h.pxPos, hdels, hbacks.2⟩, ?_⟩
+  · intro j
+    have hj := hcount j
+    simp only [delSum, MsgP.dels] at hj
+    dsimp only
+    omega
+  · have hk := hcount k
+    have hb : 1 ≤ cnt (s.px k) + delSum k rest := hbacks.1
+    simp only [delSum, MsgP.dels] at hk
+    cases ht : s.tbl k with
+    | none => rw [ht] at hk; simp [val] at hk; omega
+    | some n => exact ⟨n, rfl⟩
+
+/-- the handler's answer to a hand-back, in any state that satisfies the invariant (the key may be gone meanwhile:
+the package holds the object, boxing it again starts a new entry) -/
+theorem inv_answer_back (t : St) (k : Id) (h : Inv t) :
+    Inv { t with tbl := t.tbl.add k, o2p := t.o2p ++ [.reply [k] true] }
+    ∧ Inv { t with o2p := t.o2p ++ [.reply [] false] } := by
+  constructor
+  · refine ⟨?_, h.pxPos, h.dels, h.backs⟩
+    intro j
+    have hj := h.count j
+    simp only [val_add, refsO_append, refsO, MsgO.refs, count_cons_id, List.count_nil]
+    omega
+  · refine ⟨?_, h.pxPos, h.dels, h.backs⟩
+    intro j
+    have hj := h.count j
+    simp only [refsO_append, refsO, MsgO.refs, List.count_nil]
+    omega
+
+/-- with the local references resolved first, a nested serve of ANY content keeps the invariant ... -/
+theorem inv_deliverNested (mid : List Op) (s : St) (h : Inv s) : Inv (deliverNested true mid s).2 := by
+  unfold deliverNested
+  split
+  · exact h
+  · cases hq : s.p2o with
+    | nil => exact h
+    | cons m rest =>
+      cases m with
+      | back k e =>
+        obtain ⟨h0, n, hn⟩ := inv_pop_back s k e rest h hq
+        have h1 := inv_run mid _ h0
+        simp only [if_true, hn]
+        split
+        · exact h1
+        · split
+          · exact (inv_answer_back _ k h1).1
+          · exact (inv_answer_back _ k h1).2
+      | del k n => exact h
+      | fetch ks => exact h
+      | reply => exact h
+
+/-- ... and the hand-back always finds its object -/
+theorem deliverNested_no_keyError (mid : List Op) (s : St) (h : Inv s) : (deliverNested true mid s).1 ≠ .keyError := by
+  unfold deliverNested
+  split
+  · simp
+  · cases hq : s.p2o with
+    | nil => simp
+    | cons m rest =>
+      cases m with
+      | back k e =>
+        obtain ⟨_, n, hn⟩ := inv_pop_back s k e rest h hq
+        simp only [if_true, hn]
+        split
+        · simp
+        · split <;> simp
+      | del k n => simp
+      | fetch ks => simp
+      | reply => simp
+
 end Rpyc.Box
